@@ -135,20 +135,21 @@ def impl_eval(cases):
     return {k: [float(x) for x in v] for k, v in out.items()}
 
 
-def model_exprs(cases):
+def model_exprs(cases, kernels=True):
     ex, keys = [], []
+    K = (lambda t: t) if kernels else (lambda t: 'PrimFloat.nan')
     for (x, y, e) in cases['two']:
         a = '%s %s %s' % (C.cf(x), C.cf(y), C.cf(e))
-        ex.append('fencs [s_min %s; s_max %s; d_smin_dx %s; d_smin_dy %s; d_smax_dx %s]' % (a, a, a, a, a))
+        ex.append('fencs [%s; %s; d_smin_dx %s; d_smin_dy %s; d_smax_dx %s]' % (K('s_min ' + a), K('s_max ' + a), a, a, a))
     for (x, e) in cases['one']:
         a = '%s %s' % (C.cf(x), C.cf(e))
-        ex.append('fencs [s_abs %s; d_sabs %s; zmax %s; d_zmax %s]' % (a, a, a, a))
+        ex.append('fencs [%s; d_sabs %s; %s; d_zmax %s]' % (K('s_abs ' + a), a, K('zmax ' + a), a))
     for (s0, s1, mu, sr) in cases['fr']:
         a = '%s %s %s %s' % (C.cf(s0), C.cf(s1), C.cf(mu), C.cf(sr))
-        ex.append('fencs [compute_friction_energy_from_perp_slip %s; fst (d_friction %s); snd (d_friction %s)]' % (a, a, a))
+        ex.append('fencs [%s; fst (d_friction %s); snd (d_friction %s)]' % (K('compute_friction_energy_from_perp_slip ' + a), a, a))
     for (xi, l) in cases['sl']:
         a = '%s %s' % (C.cf(xi), C.cf(l))
-        ex.append('fencs [smooth_linear %s; d_slin %s]' % (a, a))
+        ex.append('fencs [%s; d_slin %s]' % (K('smooth_linear ' + a), a))
     return ex
 
 
@@ -243,15 +244,20 @@ def correspondence(ctx, model_ok):
     ctx.count('conclusion_checks', total)
     ctx.sample(dict(fn='min', x=cases['two'][0][0], y=cases['two'][0][1], eps=cases['two'][0][2], impl=impl['min'][0]))
     ctx.sample(dict(fn='friction', args=cases['fr'][0], impl=impl['fric'][0]))
-    if not model_ok:
+    # ---- L1: regenerated kernels and proved derivative formulas, executed at binary64, against the implementation.
+    # When the regenerated kernels or their proofs no longer build, the hand-written derivative formulas (model/M_C18.v,
+    # which do not depend on gen/) are still evaluated: they are what the C1 theorems say jax.grad must deliver.
+    import os
+    if not model_ok and not os.path.exists(os.path.join(C.COQ, 'model', 'M_C18.vo')):
         return
-    # ---- L1: regenerated kernels and proved derivative formulas, executed at binary64, against the implementation
-    res = C.coq_eval(IMPORTS, model_exprs(cases), 'C18', shard=400)
+    res = C.coq_eval(IMPORTS if model_ok else IMPORTS[1:], model_exprs(cases, kernels=model_ok), 'C18', shard=400)
     k = 0
     mism = 0
 
     def cmp(name, args, got, want, scale):
         nonlocal mism
+        if not model_ok:
+            return
         t = ULPS * math.ulp(max(scale, 1e-300)) + 1e-9 * abs(want) * 0
         if not (C.close(got, want, rtol=4e-15, atol=t)):
             mism += 1
@@ -266,7 +272,7 @@ def correspondence(ctx, model_ok):
         cmp('max', (x, y, e), v[1], impl['max'][i], sc)
         # derivatives: compare away from the measure-zero switch set where one-sided selection may legitimately differ by rounding
         d = abs(abs(x - y) - e)
-        if d > 8 * math.ulp(sc):
+        if True:   # also ON the switches: the C1 theorem fixes the derivative there, and jax.grad must deliver it
             ds = max(1.0, sc / e * 2.3e-16 / 2.2e-16)
             dt = 64 * math.ulp(1.0) * max(1.0, sc / max(e, 1e-14))
             for nm, j, key in (('dmin_dx', 2, 'dmin_dx'), ('dmin_dy', 3, 'dmin_dy'), ('dmax_dx', 4, 'dmax_dx')):
@@ -280,7 +286,7 @@ def correspondence(ctx, model_ok):
         cmp('abs', (x, e), v[0], impl['abs'][i], sc)
         cmp('zmax', (x, e), v[2], impl['zmax'][i], sc)
         dt = 64 * math.ulp(1.0) * max(1.0, sc / max(e, 1e-14))
-        if min(abs(abs(2 * x) - e), abs(abs(x) - e)) > 8 * math.ulp(sc):
+        if True:
             if abs(v[1] - impl['dabs'][i]) > dt:
                 ctx.fail('correspondence', 'proved derivative d_sabs(%r,%r) = %r but jax.grad gives %r' % (x, e, v[1], impl['dabs'][i]),
                          case=dict(fn='dabs', args=[x, e]), concrete=True)
@@ -291,16 +297,16 @@ def correspondence(ctx, model_ok):
         v = C.dec_floats(res[k]); k += 1
         nrm = math.hypot(s0, s1)
         cmp('friction', (s0, s1, mu, sr), v[0], impl['fric'][i], mu * max(nrm, sr))
-        if abs(nrm - sr) > 1e-9 * sr:
+        if True:
             for j, key in ((1, 'dfric0'), (2, 'dfric1')):
-                if abs(v[j] - impl[key][i]) > 1e-12 * max(1.0, mu):
+                if abs(v[j] - impl[key][i]) > 1e-9 * max(1.0, mu):
                     ctx.fail('correspondence', 'proved friction gradient component %d at %r = %r but jax.grad gives %r' % (j - 1, (s0, s1, mu, sr), v[j], impl[key][i]),
                              case=dict(fn='dfric', args=[s0, s1, mu, sr]), concrete=True)
     for i, (xi, l) in enumerate(cases['sl']):
         v = C.dec_floats(res[k]); k += 1
         cmp('smooth_linear', (xi, l), v[0], impl['slin'][i], 1.0)
-        if min(abs(xi - l), abs(xi - 1 + l)) > 1e-12:
-            if abs(v[1] - impl['dslin'][i]) > 1e-12 * max(1.0, 1 / l * 1e-4):
+        if True:
+            if abs(v[1] - impl['dslin'][i]) > 1e-9 * max(1.0, 1 / l * 1e-4):
                 ctx.fail('correspondence', 'proved derivative d_slin(%r,%r) = %r but jax.grad gives %r' % (xi, l, v[1], impl['dslin'][i]),
                          case=dict(fn='dslin', args=[xi, l]), concrete=True)
     ctx.count('model_vs_impl_comparisons', k)
